@@ -6,6 +6,7 @@
   operation / history, every pool configuration and every commit id.
 -/
 import Zed.Proofs.LakeStable
+import Zed.Proofs.LakeAck
 namespace Zed.Props.C13
 open Zed.Lake
 
@@ -171,6 +172,53 @@ theorem read_isolated (cfg : Cfg K V) (s : State K V) (parts : List (List (Obj K
         rw [ih _ _ hv2 r' hmono]
         simpa [hr] using h
 
+/-- **ack_visible.**  When an operation that commits on branch `b` (load, delete, delete-where,
+    compaction, vector add/delete, merge into `b`, revert on `b`) is acknowledged, `b` resolves
+    to the new commit — so every query started afterwards sees it — and the new commit sits on
+    top of the branch's previous chain; the chain only ever grows: under every later history, of
+    any operations on any branches, every commit that was on `b`'s parent chain stays on it
+    (in particular no acknowledged commit is ever dropped from its branch). -/
+theorem ack_visible (cfg : Cfg K V) (s s' : State K V) (b : Nat) (h : CommitsOn s s' b)
+    (later : List (Op V)) :
+    ∃ t, s.tip b = some t ∧ s'.tip b = some (s.commits.length + 1) ∧
+      pathAt s'.commits (s.commits.length + 1) = (s.commits.length + 1) :: pathAt s.commits t ∧
+      OnChain (run cfg s' later) b (s.commits.length + 1) ∧
+      ∀ c, OnChain s b c → OnChain (run cfg s' later) b c := by
+  obtain ⟨t, ht, h1, h2⟩ := h.chain
+  refine ⟨t, ht, h1, h2, ?_, ?_⟩
+  · exact run_onChain cfg s' later b _ ⟨_, h1, by rw [h2]; simp⟩
+  · intro c hc
+    obtain ⟨t0, ht0, hm⟩ := hc
+    rw [ht] at ht0; cases ht0
+    exact run_onChain cfg s' later b c ⟨_, h1, by rw [h2]; exact List.mem_cons_of_mem _ hm⟩
+
+/-- which operations commit on which branch (`CommitsOn`): every successful operation either
+    makes exactly one commit on one branch or leaves the commit store and all existing branch
+    pointers alone -/
+theorem acknowledged_shape (cfg : Cfg K V) (s s' : State K V) (op : Op V) (h : apply cfg s op = .ok s') :
+    (∃ b, CommitsOn s s' b) ∨
+    (s'.commits = s.commits ∧ ∀ b t, s.tip b = some t → s'.tip b = some t) :=
+  apply_shape cfg s s' op h
+
+omit [DecidableEq V] in
+/-- **cache_correct** (atomic puts).  `snapCached` is `commits.Store.Snapshot` with its caches
+    (in-memory LRU and persisted `<commit>.snap.zng`, keyed by commit id; a walk toward the root
+    that stops at the first ancestor with an entry, copies it and replays the later commits).
+    If every cache entry equals the fold of the commit chain it is keyed by, the cached lookup
+    returns exactly the fold, for every commit and every set of cached commits — and the entry it
+    then stores keeps the cache correct. -/
+theorem cache_correct (cache : List (Nat × Snap K)) (cs : List (Commit K))
+    (hc : ∀ e ∈ cache, snapAt cs e.1 = .ok e.2) (c : Nat) :
+    snapCached cache cs c c = snapAt cs c ∧
+    ∀ snap, snapCached cache cs c c = .ok snap → ∀ e ∈ (c, snap) :: cache, snapAt cs e.1 = .ok e.2 := by
+  have h := snapCached_correct cache cs hc c c (Nat.le_refl _)
+  refine ⟨h, ?_⟩
+  intro snap hs e he
+  simp only [List.mem_cons] at he
+  rcases he with he | he
+  · subst he; rw [← h]; exact hs
+  · exact hc e he
+
 /-! ### non-vacuity: the hypotheses are satisfiable (a concrete two-commit pool) -/
 
 private def exCfg : Cfg Nat Nat :=
@@ -186,6 +234,7 @@ example : ∃ snap, snapAt exState.commits 1 = .ok snap ∧ snap.hasObj 1 = true
     fileOf exState.files 1 = some [1, 2] := ⟨_, rfl, rfl, rfl⟩
 example : noVacuum ([.delete 0 [1], .merge 1 0, .revert 0 2] : List (Op Nat)) = true := rfl
 example : (1 : Nat) ≤ exState.commits.length := by decide
+example : CommitsOn exState (exState.commit 0 2 []) 0 := commitsOn_self _ _ _ _ rfl
 example : payloads exState.files [({ id := 1, min := 1, max := 2, count := 2 } : Obj Nat)] = .ok [[1, 2]] := rfl
 
 end Zed.Props.C13
